@@ -208,7 +208,16 @@ def ob_aggregate(w, P):
         return part[i] if kind == 'partial' else per[i]
     fc, tw = mk_fanout(w, n, timeouts, results)
     meth = getattr(L.fanout.FanoutCache, name)
-    if name == 'evict':
+    if P.get('busy'):
+        # a read-only aggregate meets a shard whose lock is held: it may raise Timeout (loud) or wait and cover the shard, but it
+        # must not return normally a result that leaves the shard out
+        try:
+            ret = list(meth(fc)) if name in ('__iter__', '__reversed__') else meth(fc)
+        except L.core.Timeout:
+            flag('timeout_propagated')
+            flag('nontrivial')
+            return [('C13,C17', 'an aggregate that cannot cover a busy shard raises Timeout', True)]
+    elif name == 'evict':
         ret = meth(fc, 7)
     elif name == 'reset':
         ret = meth(fc, 'cull_limit', 5)
@@ -228,7 +237,9 @@ def ob_aggregate(w, P):
     exp_order = list(range(n)) if name != '__reversed__' else list(reversed(range(n)))
     cl.append(('C13', 'every shard is visited, in shard order', first_visit == exp_order))
     counts = {i: order.count(i) for i in range(n)}
-    if P.get('with_timeouts'):
+    if P.get('busy'):
+        pass
+    elif P.get('with_timeouts'):
         cl.append(('C13,C14', 'a shard is called again only after it timed out', all(counts[i] == (2 if fired.get(i) else 1) for i in range(n))))
     else:
         cl.append(('C13', 'every shard is visited exactly once', all(counts[i] == 1 for i in range(n))))
@@ -352,6 +363,9 @@ def jobs(tier):
         out.append(dict(id='fanout.agg.%s' % m, func='ob_aggregate', params=dict(method=m), tags=['C13', 'C14', 'C04', 'C17'], functions=F, weight=2, twin=False))
     for m in ('expire', 'evict', 'cull', 'clear'):
         out.append(dict(id='fanout.agg.%s.timeouts' % m, func='ob_aggregate', params=dict(method=m, with_timeouts=True), tags=['C13', 'C14'], functions=F, weight=4, twin=False))
+    for m in ('check', '__len__', 'volume', 'stats', '__iter__'):
+        out.append(dict(id='fanout.agg.%s.busy' % m, func='ob_aggregate', params=dict(method=m, with_timeouts=True, busy=True), tags=['C13', 'C17', 'C14'], functions=F, weight=4, twin=False,
+                        must_reach=['shard_timeout']))
     out.append(dict(id='fanout.init', func='ob_init', params={}, tags=['C13', 'C09', 'C11', 'C12', 'C18'], functions=['fanout.FanoutCache.__init__', 'fanout.FanoutCache.deque', 'fanout.FanoutCache.index'],
                     weight=3, twin=False))
     out.append(dict(id='fanout.route_history', func='ob_route_history', params={}, tags=['C13'], functions=['fanout.FanoutCache.__init__', 'core.Disk.hash'], weight=3, twin=False))
